@@ -1125,6 +1125,8 @@ Qed.
 (* the outcome of parse_program once the top-level statements are parsed: success iff all text names (hoisted and
    user-defined together) are pairwise different and all movement names (user-defined and hoisted together) are
    pairwise different; otherwise the compile error "duplicate text label" / "duplicate movement label" *)
+(* the name check is that of a real compilation (in lint mode only the author's statements are compared: Parser.checked_texts) *)
+Hypothesis EE : env_errors = true.
 Theorem parse_program_outcome ts st :
   parse_tops (5 * List.length ts + 4) pstate0 ts = Parser.Ok st ->
   let texts := htexts (ph st) ++ ptexts st in
@@ -1133,7 +1135,7 @@ Theorem parse_program_outcome ts st :
   (~ NoDup (map xname texts) /\ exists x, In x texts /\ parse_program ts = err_tok (xtok x) "duplicate text label") \/
   (NoDup (map xname texts) /\ ~ NoDup (mov_names tops) /\ exists tk, parse_program ts = err_tok tk "duplicate movement label").
 Proof.
-  intros H texts tops. unfold Parser.parse_program. fold pstate0. rewrite H. fold texts. fold tops.
+  intros H texts tops. unfold Parser.parse_program, checked_texts, checked_tops. fold pstate0. rewrite H. rewrite EE. fold texts. fold tops.
   destruct (dup_text [] texts) as [x|] eqn:DT.
   - right. left. split.
     + intros ND. assert (Q : dup_text [] texts = None) by (apply dup_text_none; split; [exact ND|intros ? _ []]). congruence.
@@ -1279,9 +1281,9 @@ Print Assumptions new_movs_inv.
 (* 5. examples and counterexamples                                                                                   *)
 (* ================================================================================================================ *)
 Definition lex0 (s : string) : toks := lex (fun _ => false) (fun _ => false) (fun _ => false) (t s).
-Definition pp0 (s : string) : Parser.res program := Parser.parse_program [] [] false (fun _ => Parser.Panic) (lex0 s).
+Definition pp0 (s : string) : Parser.res program := Parser.parse_program [] [] true (fun _ => Parser.Panic) (lex0 s).
 Definition pt0 (s : string) : Parser.res pstate :=
-  Parser.parse_tops [] [] false (fun _ => Parser.Panic) (5 * List.length (lex0 s) + 4) pstate0 (lex0 s).
+  Parser.parse_tops [] [] true (fun _ => Parser.Panic) (5 * List.length (lex0 s) + 4) pstate0 (lex0 s).
 
 (* two scripts and an inline map script, repeated and distinct contents, two string types, a control construct, a
    user-defined text whose name looks like a generated one but does not clash *)
